@@ -599,9 +599,9 @@ class Firewall(Router, discriminator="firewall"):
                         src_port=None if not (p := r_cfg.get("src_port")) else PORT_LOOKUP[p],
                         dst_port=None if not (p := r_cfg.get("dst_port")) else PORT_LOOKUP[p],
                         protocol=None if not (p := r_cfg.get("protocol")) else PROTOCOL_LOOKUP[p],
-                        src_ip_address=r_cfg.get("src_ip"),
+                        src_ip_address=r_cfg.get("src_ip", r_cfg.get("src_ip_address")),
                         src_wildcard_mask=r_cfg.get("src_wildcard_mask"),
-                        dst_ip_address=r_cfg.get("dst_ip"),
+                        dst_ip_address=r_cfg.get("dst_ip", r_cfg.get("dst_ip_address")),
                         dst_wildcard_mask=r_cfg.get("dst_wildcard_mask"),
                         position=r_num,
                     )
@@ -614,9 +614,9 @@ class Firewall(Router, discriminator="firewall"):
                         src_port=None if not (p := r_cfg.get("src_port")) else PORT_LOOKUP[p],
                         dst_port=None if not (p := r_cfg.get("dst_port")) else PORT_LOOKUP[p],
                         protocol=None if not (p := r_cfg.get("protocol")) else PROTOCOL_LOOKUP[p],
-                        src_ip_address=r_cfg.get("src_ip"),
+                        src_ip_address=r_cfg.get("src_ip", r_cfg.get("src_ip_address")),
                         src_wildcard_mask=r_cfg.get("src_wildcard_mask"),
-                        dst_ip_address=r_cfg.get("dst_ip"),
+                        dst_ip_address=r_cfg.get("dst_ip", r_cfg.get("dst_ip_address")),
                         dst_wildcard_mask=r_cfg.get("dst_wildcard_mask"),
                         position=r_num,
                     )
@@ -629,9 +629,9 @@ class Firewall(Router, discriminator="firewall"):
                         src_port=None if not (p := r_cfg.get("src_port")) else PORT_LOOKUP[p],
                         dst_port=None if not (p := r_cfg.get("dst_port")) else PORT_LOOKUP[p],
                         protocol=None if not (p := r_cfg.get("protocol")) else PROTOCOL_LOOKUP[p],
-                        src_ip_address=r_cfg.get("src_ip"),
+                        src_ip_address=r_cfg.get("src_ip", r_cfg.get("src_ip_address")),
                         src_wildcard_mask=r_cfg.get("src_wildcard_mask"),
-                        dst_ip_address=r_cfg.get("dst_ip"),
+                        dst_ip_address=r_cfg.get("dst_ip", r_cfg.get("dst_ip_address")),
                         dst_wildcard_mask=r_cfg.get("dst_wildcard_mask"),
                         position=r_num,
                     )
@@ -644,9 +644,9 @@ class Firewall(Router, discriminator="firewall"):
                         src_port=None if not (p := r_cfg.get("src_port")) else PORT_LOOKUP[p],
                         dst_port=None if not (p := r_cfg.get("dst_port")) else PORT_LOOKUP[p],
                         protocol=None if not (p := r_cfg.get("protocol")) else PROTOCOL_LOOKUP[p],
-                        src_ip_address=r_cfg.get("src_ip"),
+                        src_ip_address=r_cfg.get("src_ip", r_cfg.get("src_ip_address")),
                         src_wildcard_mask=r_cfg.get("src_wildcard_mask"),
-                        dst_ip_address=r_cfg.get("dst_ip"),
+                        dst_ip_address=r_cfg.get("dst_ip", r_cfg.get("dst_ip_address")),
                         dst_wildcard_mask=r_cfg.get("dst_wildcard_mask"),
                         position=r_num,
                     )
@@ -659,9 +659,9 @@ class Firewall(Router, discriminator="firewall"):
                         src_port=None if not (p := r_cfg.get("src_port")) else PORT_LOOKUP[p],
                         dst_port=None if not (p := r_cfg.get("dst_port")) else PORT_LOOKUP[p],
                         protocol=None if not (p := r_cfg.get("protocol")) else PROTOCOL_LOOKUP[p],
-                        src_ip_address=r_cfg.get("src_ip"),
+                        src_ip_address=r_cfg.get("src_ip", r_cfg.get("src_ip_address")),
                         src_wildcard_mask=r_cfg.get("src_wildcard_mask"),
-                        dst_ip_address=r_cfg.get("dst_ip"),
+                        dst_ip_address=r_cfg.get("dst_ip", r_cfg.get("dst_ip_address")),
                         dst_wildcard_mask=r_cfg.get("dst_wildcard_mask"),
                         position=r_num,
                     )
@@ -674,9 +674,9 @@ class Firewall(Router, discriminator="firewall"):
                         src_port=None if not (p := r_cfg.get("src_port")) else PORT_LOOKUP[p],
                         dst_port=None if not (p := r_cfg.get("dst_port")) else PORT_LOOKUP[p],
                         protocol=None if not (p := r_cfg.get("protocol")) else PROTOCOL_LOOKUP[p],
-                        src_ip_address=r_cfg.get("src_ip"),
+                        src_ip_address=r_cfg.get("src_ip", r_cfg.get("src_ip_address")),
                         src_wildcard_mask=r_cfg.get("src_wildcard_mask"),
-                        dst_ip_address=r_cfg.get("dst_ip"),
+                        dst_ip_address=r_cfg.get("dst_ip", r_cfg.get("dst_ip_address")),
                         dst_wildcard_mask=r_cfg.get("dst_wildcard_mask"),
                         position=r_num,
                     )
